@@ -41,6 +41,32 @@ Proof.
   - cbn [negb andb]. rewrite ES, map_length, Nat.eqb_refl. reflexivity.
 Qed.
 
+(* a wrong expected count is an error for every header form (never a silent shift) *)
+Lemma set_array_items_mismatch f xs n : wf (Arr f xs) -> count_ok xs -> n <> length xs ->
+  set_array_items (enc (Arr f xs)) n = None.
+Proof.
+  intros Hw Hc Hn. unfold set_array_items, cbor_array_info.
+  assert (E1 : cbor_info 4 (enc (Arr f xs)) = (Some (cnt_of f xs), hdr_size f, is_indef f))
+    by (rewrite <- (app_nil_r (enc _)); apply cbor_info_arr; assumption).
+  assert (E2 : skipn (hdr_size f) (enc (Arr f xs)) = flat_map enc xs ++ trailer_bytes f ++ [])
+    by (rewrite <- (app_nil_r (enc _)) at 1; apply arr_after_header; assumption).
+  rewrite E1, E2.
+  assert (ES : scan (item_step (hdr_size f)) (S (length (enc (Arr f xs)))) (is_indef f) (cnt_of f xs) 0
+                 (flat_map enc xs ++ trailer_bytes f ++ []) = map enc xs).
+  { rewrite (scan_all enc _ (fun _ x => [enc x])).
+    - apply spec_run_items.
+    - intros x p more Hin. apply item_step_enc. apply wf_arr in Hw. destruct Hw as [_ Hall].
+      rewrite Forall_forall in Hall. apply Hall. exact Hin.
+    - intros x Hin. apply wf_arr in Hw. destruct Hw as [_ Hall]. rewrite Forall_forall in Hall.
+      destruct (enc_first x (Hall x Hin)) as (b & t & E & Hb). exists b, t. auto.
+    - apply end_break.
+    - apply end_count.
+    - pose proof (arr_count_le f xs Hw). lia. }
+  destruct f as [fm|]; cbn [is_indef cnt_of negb andb] in *.
+  - destruct (N.eqb_spec (N.of_nat (length xs)) (N.of_nat n)); [lia|reflexivity].
+  - rewrite ES, map_length. destruct (Nat.eqb_spec (length xs) n); [congruence|reflexivity].
+Qed.
+
 (* the Shelley..Conway block layout *)
 Theorem extract_tx_cbor_enc f0 h f1 bodies f2 wits aux rest :
   let b := Arr f0 (h :: Arr f1 bodies :: Arr f2 wits :: aux :: rest) in
@@ -74,4 +100,54 @@ Proof.
     destruct (N.ltb_spec (N.of_nat (S (S (S (S (length rest)))))) 3); [lia|].
     destruct (N.ltb_spec 3 (N.of_nat (S (S (S (S (length rest))))))); [reflexivity|lia].
   - reflexivity.
+Qed.
+
+(* wrong expected counts: ExtractAndSetTransactionCbor returns an error *)
+Theorem extract_tx_cbor_mismatch f0 h f1 bodies f2 wits aux rest nb nw :
+  let b := Arr f0 (h :: Arr f1 bodies :: Arr f2 wits :: aux :: rest) in
+  wf b -> size_ok b -> nb <> length bodies \/ nw <> length wits ->
+  extract_tx_cbor (enc b) nb nw = None.
+Proof.
+  intros b Hw Hsz Hne. set (xs := h :: Arr f1 bodies :: Arr f2 wits :: aux :: rest) in *.
+  assert (Hall : Forall wf xs) by (apply wf_arr in Hw; apply Hw).
+  assert (Hwh : wf h) by (inversion Hall; assumption).
+  assert (HwB1 : wf (Arr f1 bodies)) by (apply (wf_children f0 xs 1 _ Hw); reflexivity).
+  assert (HwB2 : wf (Arr f2 wits)) by (apply (wf_children f0 xs 2 _ Hw); reflexivity).
+  assert (Hwa : wf aux) by (apply (wf_children f0 xs 3 _ Hw); reflexivity).
+  assert (C0 : count_ok xs) by (apply (size_ok_arr f0 xs Hw Hsz)).
+  assert (L1 : located (enc b) (child_off f0 xs 1) (Arr f1 bodies)) by (apply (located_arr_child _ 0 f0 xs 1); [apply located_self|reflexivity]).
+  assert (L2 : located (enc b) (child_off f0 xs 2) (Arr f2 wits)) by (apply (located_arr_child _ 0 f0 xs 2); [apply located_self|reflexivity]).
+  assert (C1 : count_ok bodies) by (apply (size_ok_arr f1 bodies HwB1); eapply size_ok_located; eauto).
+  assert (C2 : count_ok wits) by (apply (size_ok_arr f2 wits HwB2); eapply size_ok_located; eauto).
+  unfold extract_tx_cbor, cbor_array_info.
+  assert (E1 : cbor_info 4 (enc b) = (Some (cnt_of f0 xs), hdr_size f0, is_indef f0))
+    by (rewrite <- (app_nil_r (enc _)); apply cbor_info_arr; assumption).
+  assert (E2 : skipn (hdr_size f0) (enc b) = flat_map enc xs ++ trailer_bytes f0 ++ [])
+    by (rewrite <- (app_nil_r (enc _)) at 1; apply arr_after_header; assumption).
+  rewrite E1, E2.
+  change (flat_map enc xs) with (enc h ++ enc (Arr f1 bodies) ++ enc (Arr f2 wits) ++ enc aux ++ flat_map enc rest).
+  rewrite <- !app_assoc.
+  rewrite sd_skip_enc by exact Hwh. rewrite sd_skip_enc by exact HwB1. rewrite sd_skip_enc by exact HwB2.
+  rewrite !firstn_enc.
+  assert (EN : (negb (is_indef f0) && (cnt_of f0 xs <? 3)%N) = false).
+  { destruct f0; cbn [is_indef cnt_of negb andb]; [|reflexivity]. unfold xs. cbn [length].
+    destruct (N.ltb_spec (N.of_nat (S (S (S (S (length rest)))))) 3); [lia|reflexivity]. }
+  rewrite EN.
+  destruct (Nat.eq_dec nb (length bodies)) as [->|Hb].
+  - rewrite (set_array_items_enc f1 bodies HwB1 C1).
+    destruct Hne as [Hne|Hne]; [congruence|]. rewrite (set_array_items_mismatch f2 wits nw HwB2 C2 Hne). reflexivity.
+  - rewrite (set_array_items_mismatch f1 bodies nb HwB1 C1 Hb). reflexivity.
+Qed.
+
+(* standalone transaction: stored bytes are the input item and its first two children *)
+Theorem decode_tx_enc exact n f body w rest trail :
+  let t := Arr f (body :: w :: rest) in
+  wf t -> (exact = true -> n = S (S (length rest))) -> (exact = false -> n <= S (S (length rest))) ->
+  decode_tx exact n (enc t ++ trail) = Some (enc t, enc body, enc w).
+Proof.
+  intros t Hw Hn Hn'. subst t. unfold decode_tx. rewrite parse_full_enc by exact Hw. rewrite consumed_app, firstn_enc.
+  rewrite dec_raw_list_enc0 by exact Hw. cbn [map]. rewrite map_length.
+  destruct exact.
+  - rewrite (Hn eq_refl), Nat.eqb_refl. reflexivity.
+  - specialize (Hn' eq_refl). destruct (Nat.leb_spec n (S (S (length rest)))); [reflexivity|lia].
 Qed.
